@@ -171,9 +171,9 @@ func init() {
 		Simulated: []string{"writer (errors, short writes)", "reader (short reads)", "host world"},
 		Runs: func(tier string) int {
 			if tier == "thorough" {
-				return 300000
+				return 60000000
 			}
-			return 4000
+			return 60000
 		},
 		WallCap: func(tier string) float64 {
 			if tier == "thorough" {
